@@ -188,7 +188,11 @@ def build(r, template):
         if not first:
             pieces[-1] += b' '
         first = False
-        if item[0] == 'w':
+        if item[0] in ('j', 'sj'):
+            pieces[-1] = pieces[-1][:-1] if pieces[-1].endswith(b' ') else pieces[-1]       # glued to what precedes it
+        if item[0] == 'j':
+            pieces[-1] += item[1]
+        elif item[0] == 'w':
             w = item[1]
             pieces[-1] += r.choice([w, w.lower(), w.upper(), bytes(c ^ 0x20 if (65 <= c <= 90 or 97 <= c <= 122) and r.random() < 0.5 else c for c in w)])
         elif item[0] == 'raw':
@@ -232,7 +236,7 @@ def canon(raw):
                 if code and (code.startswith(b'[UIDVALIDITY') or code.startswith(b'[MAILBOXID') or code.startswith(b'[APPENDUID') or code.startswith(b'[COPYUID')):
                     code = code.split(b' ')[0]
                 out.append((b'*', kind, code))
-            elif kind in (b'LIST', b'LSUB', b'STATUS', b'SEARCH', b'FLAGS'):
+            elif kind in (b'LIST', b'LSUB', b'STATUS', b'SEARCH', b'FLAGS', b'FETCH'):
                 out.append(tuple(repr(x) for x in r[1:] if not (isinstance(x, imapresp.Tok) and x.val.startswith(b'F') and len(x.val) == 33)))
             else:
                 out.append(tuple(repr(x) for x in r[1:3]))
@@ -262,6 +266,9 @@ def gen_program(r):
         [('w', b'SELECT'), ('s', enc[0], 'astring')],
         [('w', b'SEARCH'), ('w', b'SUBJECT'), ('s', subj, 'astring')],
         [('w', b'SEARCH'), ('w', b'HEADER'), ('s', b'Subject', 'astring'), ('s', subj, 'astring')],
+        # header-fld-name is an astring too (and the item name is echoed back)
+        [('w', b'FETCH'), ('raw', b'1'), ('raw', b'(BODY.PEEK[HEADER.FIELDS ('), ('sj', r.choice([b'Subject', b'subject', b'X-None']), 'astring'), ('j', b')])')],
+        [('w', b'FETCH'), ('raw', b'1'), ('raw', b'(BODY.PEEK[HEADER.FIELDS.NOT ('), ('sj', b'Subject', 'astring'), ('s', b'From', 'astring'), ('j', b')])')],
         [('w', b'STORE'), ('raw', b'1'), ('w', b'+FLAGS'), ('raw', b'(\\Flagged)')],
         [('w', b'COPY'), ('raw', b'1'), ('s', enc[1], 'astring')],
         [('w', b'CLOSE')],
